@@ -15,6 +15,7 @@ for f in sorted(kf, key=lambda f: (f["id"][0] != "F", int(f["id"][1:]))):
 findings = "\n".join(rows)
 rows = ["| change | what it does (sub-agent's summary, shortened) | needs | caught by |", "|--------|------|-------|-----------|"]
 n_total = n_caught = 0
+notes = []
 for d in sorted(glob.glob(os.path.join(HERE, "seeded", "*"))):
     m = json.load(open(os.path.join(d, "meta.json")))
     n_total += 1
@@ -25,10 +26,13 @@ for d in sorted(glob.glob(os.path.join(HERE, "seeded", "*"))):
         s = " ".join(str(s).split())
         return s if len(s) <= n else s[:n - 1] + "…"
     note = " (*)" if m.get("note_from_confirmation") else ""
+    if note:
+        notes.append("* `%s` — %s" % (os.path.basename(d), " ".join(m["note_from_confirmation"].split())))
     rows.append("| `%s` | %s | %s | %s%s |" % (os.path.basename(d), short(m.get("summary", ""), 170).replace("|", "/"),
                                               short(m.get("needs", ""), 150).replace("|", "/"),
                                               ", ".join(caught) if caught else "**missed**", note))
 seeded = "\n".join(rows) + "\n\n%d confirmed changes, %d caught by the check of their property. (*) = see `note_from_confirmation` in the change's meta.json: the first version of the check missed it and was strengthened, or the change has a restriction." % (n_total, n_caught)
+seeded += "\n\n**The (*) notes** (%d changes; what the checks lacked and what was added):\n\n" % len(notes) + "\n".join(notes)
 p = os.path.join(HERE, "DESIGN.md")
 s = open(p).read()
 def put(s, name, text):
